@@ -39,6 +39,8 @@ type c20Case struct {
 	Files map[string][]c20Rule `json:"files"`
 	// files that, at HEAD only, start with a malformed control comment: reported on its own, the rules still parse
 	BadComment map[string]bool `json:"head_has_malformed_comment,omitempty"`
+	// a removed file whose name is taken, at HEAD, by a directory holding an unrelated rule file
+	DirInstead map[string]bool `json:"directory_takes_the_name,omitempty"`
 }
 
 var c20Metrics = []string{"job:up:sum", "job:foo:rate5m", "instance:bar:avg", "foo:sum", "up", "foo"}
@@ -316,6 +318,10 @@ func c20EndToEnd(r *hx.Run, cs c20Case) {
 			_ = os.MkdirAll(filepath.Dir(full), 0o755)
 			if c == "" {
 				_ = os.Remove(full)
+				if cs.DirInstead[p] {
+					_ = os.MkdirAll(full, 0o755)
+					_ = os.WriteFile(filepath.Join(full, "new.yml"), []byte("groups:\n- name: other\n  rules:\n  - alert: SomethingCompletelyDifferent\n    expr: absent(node_time_seconds) == 1\n    for: 15m\n    labels:\n      severity: page\n    annotations:\n      summary: nothing in common with the deleted file so git does not call it a rename\n"), 0o644)
+				}
 				continue
 			}
 			_ = os.WriteFile(full, []byte(c), 0o644)
@@ -409,8 +415,13 @@ func runC20(r *hx.Run, replay string) {
 	for i := 0; i < r.N; i++ {
 		cs := c20Case{Files: map[string][]c20Rule{}}
 		nf := 1 + rr.Intn(3)
+		var names []string
 		for f := 0; f < nf; f++ {
 			p := fmt.Sprintf("rules/f%d.yml", f)
+			if rr.Intn(5) == 0 {
+				p = fmt.Sprintf("rules/règles %d.yml", f) // git prints such names quoted
+			}
+			names = append(names, p)
 			for j, n := 0, 1+rr.Intn(4); j < n; j++ {
 				ru := c20RandRule(r)
 				ru.Removed = rr.Intn(3) == 0
@@ -420,14 +431,18 @@ func runC20(r *hx.Run, replay string) {
 			if rr.Intn(6) == 0 { // remove the whole file
 				for j := range cs.Files[p] {
 					cs.Files[p][j].Removed = true
+					cs.Files[p][j].Switched = false
+				}
+				if rr.Intn(2) == 0 {
+					cs.DirInstead = map[string]bool{p: true}
 				}
 			}
 		}
 		if i%8 == 3 {
-			cs.BadComment = map[string]bool{fmt.Sprintf("rules/f%d.yml", rr.Intn(nf)): true}
+			cs.BadComment = map[string]bool{names[rr.Intn(nf)]: true}
 		}
 		c20Eval(r, cs)
-		if i%12 == 0 || cs.BadComment != nil {
+		if i%12 == 0 || cs.BadComment != nil || cs.DirInstead != nil || (i%3 == 0 && strings.Contains(strings.Join(names, ""), "règles")) {
 			c20EndToEnd(r, cs)
 		}
 	}
